@@ -126,6 +126,23 @@ func TestVerifC05Node(t *testing.T) {
 				resp.Code, resp.Err = -1, err.Error()
 			}
 			reply(resp)
+		case "snapkill":
+			// SIGKILL between FSM.Snapshot and Persist.  The compaction time is chosen so that every entry but
+			// the newest is old enough to be folded (what FSM.Snapshot folds it removes from the log copy).
+			time.Sleep(2 * time.Millisecond)
+			if es := n.logEntries(); len(es) >= 2 {
+				exp := n.fsm.sessionExpiration()
+				if exp == 0 {
+					exp = 10 * time.Minute
+				}
+				*canaryCompactionStart = es[len(es)-1].UnixNano - 1 + int64(exp+expireSessionsInterval)
+			}
+			err := n.snapshotWith(func() {
+				syscall.Kill(os.Getpid(), syscall.SIGKILL)
+				select {}
+			})
+			*canaryCompactionStart = 0
+			reply(c05Resp{Code: -1, Err: fmt.Sprint(err)}) // only reached when the snapshot was refused
 		case "snappost":
 			// the line is posted after FSM.Snapshot returned and before Persist runs
 			time.Sleep(2 * time.Millisecond)
@@ -565,7 +582,12 @@ func TestVerifC05Fresh(t *testing.T) {
 	base := t.TempDir()
 	// snap+restart: a snapshot directly followed by a graceful restart, as one step (so that "snapshot, restart,
 	// write, snapshot, restart" fits into the depth bound)
-	seqs := vSeqs([]string{"create", "config", "snapshot", "snap+restart", "kill", "restart"}, depth)
+	alphabet := []string{"create", "config", "snapshot", "snap+restart", "kill", "restart"}
+	if os.Getenv("VERIF_C05_ALPHA") == "window" {
+		// snapkill: SIGKILL in the window between FSM.Snapshot and Persist of a compacting snapshot
+		alphabet = []string{"create", "config", "snapkill", "snap+restart", "kill"}
+	}
+	seqs := vSeqs(alphabet, depth)
 	if rp := os.Getenv("VERIF_REPLAY"); rp != "" {
 		b, _ := os.ReadFile(rp)
 		var v vViol
@@ -629,6 +651,16 @@ func TestVerifC05Fresh(t *testing.T) {
 				// (it is the later loss, if any, that the oracle reports -- not the refusal)
 				if r := must(c05Cmd{Op: "snapshot"}); r.Code == 200 {
 					res.Snapshots++
+				}
+			case "snapkill":
+				if _, err := child.call(c05Cmd{Op: "snapkill"}); err != nil {
+					// the child died in the window
+					child.cmd.Wait()
+					child.w.Close()
+					res.Restarts++
+					res.EndStates["(kills between FSM.Snapshot and Persist)"]++
+					child, err = c05Spawn(dir, false)
+					herr(err)
 				}
 			case "kill", "restart", "snap+restart":
 				if op == "snap+restart" {
